@@ -4,6 +4,7 @@ import (
 	"fmt"
 	"math/rand"
 	"reflect"
+	"strings"
 
 	"github.com/xelaj/mtproto/telegram/deeplinks"
 	"github.com/xelaj/mtproto/zverif/ref/link"
@@ -178,6 +179,58 @@ func c20(c *wk.Ctx) {
 				}
 			}
 			c20One(c, idx, p.String(), true, p)
+		}
+		idx++
+	}
+	// 2b. several goroutines resolving at once; the expectation for each link is the sequential, already judged answer
+	for k := 0; k < c.Pick(4, 40); k++ {
+		if c.Mine(idx) {
+			c.Begin(idx, fmt.Sprintf("concurrent %d", k))
+			r := c.Rand(idx)
+			var links []string
+			for j := 0; j < 300; j++ {
+				p := link.Parts{Scheme: c20Schemes[r.Intn(len(c20Schemes))], Host: c20Hosts[r.Intn(len(c20Hosts))], Port: c20Ports[r.Intn(2)], Suffix: c20Suffix[r.Intn(len(c20Suffix))]}
+				if r.Intn(2) == 0 {
+					p.Host = link.Reserved[r.Intn(len(link.Reserved))]
+				}
+				p.Segs = paths[r.Intn(len(paths))]
+				links = append(links, p.String())
+			}
+			type ans struct {
+				k link.Kind
+				v string
+			}
+			ask := func(s string) (a ans) {
+				defer func() {
+					if recover() != nil {
+						a = ans{link.DontCare, "<panic>"}
+					}
+				}()
+				d, err := deeplinks.Resolve(s)
+				kk, v := c20Classify(d, err)
+				return ans{kk, v}
+			}
+			want := make([]ans, len(links))
+			for i, s := range links {
+				want[i] = ask(s)
+			}
+			res := concurrently(8, int64(idx), func(g int, rr *rand.Rand) string {
+				for round := 0; round < 3; round++ {
+					for _, i := range rr.Perm(len(links)) {
+						if got := ask(links[i]); got != want[i] {
+							return fmt.Sprintf("answer-depends-on-history: Resolve(%q) gave %v/%q alone and %v/%q among 8 goroutines", links[i], want[i].k, want[i].v, got.k, got.v)
+						}
+					}
+				}
+				return ""
+			})
+			c.Count("evaluations", 8*3*300)
+			for _, m := range res {
+				if m != "" {
+					c.Viol("C20", idx, "concurrent/"+strings.SplitN(m, ":", 2)[0], m, nil)
+				}
+			}
+			c.Distinct("concurrent", k)
 		}
 		idx++
 	}
